@@ -354,6 +354,7 @@ def run_check(prop_id, tier, seed, replay_path=None):
         return 2
 
     jobs = []
+    units = []
     if replay_path is not None:
         jobs.append((prop_id, {"kind": "replay", "name": f"replay:{Path(replay_path).name}", "path": str(replay_path)}, seed, tier))
     else:
@@ -367,7 +368,11 @@ def run_check(prop_id, tier, seed, replay_path=None):
             u.setdefault("shard", k)
             jobs.append((prop_id, u, seed * 1000 + k, tier))
 
-    results = _pool_map(jobs)
+    try:
+        results = _pool_map(jobs)
+    finally:
+        if replay_path is None and hasattr(mod, "cleanup"):
+            mod.cleanup(units)
     results.sort(key=lambda r: r["unit"])
 
     errors = [r for r in results if r.get("error")]
